@@ -65,7 +65,7 @@ def handlePieces (glob : Bool) (e n d : Str) (rest : List Str) : Str :=
     let nz (x : Str) : Str := if x.isEmpty then ['-'] else x
     if glob then
       let nm (l : List Str) : Str := if l.isEmpty then "NONE".toList else joinWith [','] (l.map esc)
-      (match expandPieces (flag e) (flag n) (flag d) (mergeAdjacent ps) ss with
+      (match expandPieces (flag e) (flag n) (flag d) ps ss with
        | none => "NOEXP".toList
        | some l => nm l) ++ [' '] ++
       (match specExpandPieces (flag e) (flag n) (flag d) ps ss with
